@@ -386,6 +386,10 @@ impl PacketReceiver {
                     let window_delta = packet_id::sub(sequence_id, new_base_id);
 
                     if window_parent_lead == 0 || window_parent_lead > window_delta {
+                        if self.data_flags[flags_index] & flag_bit != 0 {
+                            // Packet has yet to be delivered (its parent leads are inconsistent)
+                            break;
+                        }
                         // println!("Forget sequence ID {}", sequence_id);
                         new_base_id = next_id;
                         // Window advancement implies that this packet has been delivered
